@@ -1073,6 +1073,14 @@ func TestReplay(t *testing.T) {
 	if err != nil {
 		t.Fatal(err)
 	}
+	if strings.Contains(key, "/identity/") {
+		replayIdentity(t, path)
+		return
+	}
+	if strings.Contains(key, "/contention/") {
+		replayContention(t, path)
+		return
+	}
 	if strings.Contains(key, "/proxy/") {
 		replayProxy(t, path)
 		return
